@@ -34,7 +34,8 @@
 (* because every pair of directions is 120 degrees apart (cos = -1/2).     *)
 (*                                                                         *)
 (* The module adds one variable (pick: the constraint-id request chosen    *)
-(* for this behaviour), the action PickReq and the terminal action FinishA *)
+(* for this behaviour), the actions ExtendPick/ClosePick and the terminal  *)
+(* action FinishA                                                          *)
 (* which replaces AcnSim!Finish: it emits the behaviour followed by one    *)
 (* record with the value of every analysis function.                       *)
 (***************************************************************************)
@@ -47,14 +48,16 @@ CONSTANTS
     ConCoef,    \* ConCoef[c][s] = numerator of the coefficient of station s in row c
     Q,          \* rates are multiples of 1/Q A in the configurations checked
     Requests,   \* sequence of requests (sequences of ids) evaluated for every behaviour
-    PickLen,    \* PickReq chooses any repetition-free request of at most this length
+    MinSess,    \* scenarios start with at least this many sessions (0: every AcnSim scenario)
+    PickLen,    \* ExtendPick builds any repetition-free request of at most this length
+    MinPick,    \* ... and at least this length
     ThmLen,     \* RightNames is checked for all repetition-free requests up to this length
     NemaIds,    \* sequence of triples <<idA, idB, idC>> for current_unbalance
     ThrSet,     \* thresholds for proportion_of_demands_met (W*min)
     Price,      \* Price[k+1] = energy price in period k (cents/kWh)
     DemandRate  \* demand charge ($/kW)
 
-VARIABLE pick   \* <<>> until PickReq, then <<request>>
+VARIABLE pick   \* the request (sequence of constraint ids) the caller has built so far
 
 varsA == <<vars, pick>>
 
@@ -67,11 +70,17 @@ MinOf(S) == CHOOSE m \in S : \A x \in S : m <= x
 
 ASSUME /\ Len(Phase) = NS /\ \A s \in Stations : Phase[s] \in Angles
        /\ CoefDen \in Nat \ {0} /\ Q \in Nat \ {0}
+       /\ MinSess \in 0..MaxSess /\ MinPick \in 0..PickLen /\ PickLen <= Len(ConNames)
        /\ Len(ConCoef) = NC /\ \A c \in 1..NC : Len(ConCoef[c]) = NS
        /\ \A a, b \in 1..NC : a # b => ConNames[a] # ConNames[b]      \* ids are unique
        /\ \A j \in 1..Len(Requests) : SeqRange(Requests[j]) \subseteq SeqRange(ConNames)
        /\ \A j \in 1..Len(NemaIds) : Len(NemaIds[j]) = 3 /\ SeqRange(NemaIds[j]) \subseteq SeqRange(ConNames)
        /\ Len(Price) >= H + 1
+
+\* Sum of f[1..n] (stations are 1..NS).
+RECURSIVE SumSeq(_, _)
+SumSeq(f, n) == IF n = 0 THEN 0 ELSE f[n] + SumSeq(f, n - 1)
+SumSt(f) == SumSeq(f, NS)
 
 \* The periods simulated so far: charging_rates has a column for each.
 Periods == 0..(t - 1)
@@ -82,26 +91,26 @@ Periods == 0..(t - 1)
 RateN(s, k) == dE[s][k + 1] * (VL \div Volt[s])
 
 \* aggregate_current: sim.charging_rates.sum(axis=0)            [A], over VL*T
-AggCurN(k) == SumSet([s \in Stations |-> RateN(s, k)], Stations)
+AggCurN(k) == SumSt([s \in Stations |-> RateN(s, k)])
 AggregateCurrent == [k \in 1..t |-> AggCurN(k - 1)]
 
 \* aggregate_power: voltages . charging_rates / 1000            [kW], over 1000*VL*T
 \* (each station's current weighted by ITS voltage)
-AggPowN(k) == SumSet([s \in Stations |-> Volt[s] * RateN(s, k)], Stations)
+AggPowN(k) == SumSt([s \in Stations |-> Volt[s] * RateN(s, k)])
 AggregatePower == [k \in 1..t |-> AggPowN(k - 1)]
 
 \* Energy delivered by the whole site in period k (W*min).
-PeriodEnergy(k) == SumSet([s \in Stations |-> dE[s][k + 1]], Stations)
+PeriodEnergy(k) == SumSt([s \in Stations |-> dE[s][k + 1]])
 
 -----------------------------------------------------------------------------
 \* ---- constraint_currents ----------------------------------------------------
 \* Rates on the Q-lattice.
 RateQ(s, k) == (dE[s][k + 1] * Q) \div (Volt[s] * T)
-Quantised == \A s \in Stations : \A k \in 0..H : (dE[s][k + 1] * Q) % (Volt[s] * T) = 0
+QuantisedAll == \A s \in Stations : \A k \in 0..H : (dE[s][k + 1] * Q) % (Volt[s] * T) = 0
 
 \* Row c restricted to the stations on direction ang: a real (signed) current.
 Grp(c, k, ang) ==
-    SumSet([s \in Stations |-> IF Phase[s] = ang THEN ConCoef[c][s] * RateQ(s, k) ELSE 0], Stations)
+    SumSt([s \in Stations |-> IF Phase[s] = ang THEN ConCoef[c][s] * RateQ(s, k) ELSE 0])
 
 \* |sum_s coef[c][s] * rate[s][k] * e^{j Phase[s]}|^2, over (Q*CoefDen)^2.
 ConSq(c, k) ==
@@ -111,24 +120,26 @@ ConSq(c, k) ==
 \* The row uses stations of one direction only: the phasor sum is an ordinary sum.
 Support(c) == {s \in Stations : ConCoef[c][s] # 0}
 Collinear(c) == \A s1, s2 \in Support(c) : Phase[s1] = Phase[s2]
-ConLin(c, k) == AbsI(SumSet([s \in Stations |-> ConCoef[c][s] * RateQ(s, k)], Stations))
+ConLin(c, k) == AbsI(SumSt([s \in Stations |-> ConCoef[c][s] * RateQ(s, k)]))
 \* sum_s |coef| * rate: what linear=True computes for non-negative rows; bounds |I|.
-LinBound(c, k) == SumSet([s \in Stations |-> AbsI(ConCoef[c][s]) * RateQ(s, k)], Stations)
+LinBound(c, k) == SumSt([s \in Stations |-> AbsI(ConCoef[c][s]) * RateQ(s, k)])
 
 NetIdx(nm) == CHOOSE i \in 1..NC : ConNames[i] = nm
 
-\* Structured like the code:
-\*   network.constraint_current(rates, constraints=ids) returns the rows of the constraint
-\*   matrix whose id is in ids, IN NETWORK ORDER ...
+\* Structured like the code.  network.constraint_current(rates, constraints=ids) computes
+\*   constraint_matrix[indices] @ phasor_schedule
+\* i.e. the rows of the full product (CurrentMatrix, here as squared magnitudes) ...
+CurrentMatrix == [c \in 1..NC |-> [k \in 1..t |-> ConSq(c, k - 1)]]
+\* ... whose id is in ids, IN NETWORK ORDER ...
 SelIdx(req) == SelectSeq([i \in 1..NC |-> i], LAMBDA i : ConNames[i] \in SeqRange(req))
-CurrentsRow(idx, j) == [k \in 1..t |-> ConSq(idx[j], k - 1)]
-CurrentsList(idx) == [j \in 1..Len(idx) |-> CurrentsRow(idx, j)]
-\*   ... and the requested ids are re-ordered to network order before they are zipped with the rows:
+CurrentsList(idx, M) == [j \in 1..Len(idx) |-> M[idx[j]]]
+\* ... and the requested ids are re-ordered to network order before they are zipped with the rows:
 \*   {constraint_ids[i]: currents_list[i] for i in range(len(constraint_ids))}
 NamesList(idx) == [j \in 1..Len(idx) |-> ConNames[idx[j]]]
-ConstraintCurrents(req) ==
-    [nm \in SeqRange(NamesList(SelIdx(req))) |->
-        CurrentsRow(SelIdx(req), CHOOSE j \in 1..Len(SelIdx(req)) : NamesList(SelIdx(req))[j] = nm)]
+Zip(names, rows) == [nm \in SeqRange(names) |-> rows[CHOOSE j \in 1..Len(names) : names[j] = nm]]
+\* (M is passed in so that TLC computes the matrix once for many requests)
+ConstraintCurrentsM(req, M) == Zip(NamesList(SelIdx(req)), CurrentsList(SelIdx(req), M))
+ConstraintCurrents(req) == ConstraintCurrentsM(req, CurrentMatrix)
 
 \* All repetition-free sequences of at most n ids ("all subsets and orderings").
 RECURSIVE ReqUniverse(_)
@@ -157,17 +168,19 @@ ThrDecisive(th) == \A i \in seen : Remaining(i) = th => evE[i] = 0
 \* phase_ids; (max - mean) / mean over the three magnitudes, per period.
 \* Squared magnitudes (exact for any rows): PhaseSq(ids)[j][k+1] = |I_(ids[j])|^2 in period k
 \* (np.vstack([currents_dict[phase] for phase in phase_ids]): one row per entry of phase_ids)
-PhaseSq(ids) == [j \in 1..3 |-> ConstraintCurrents(ids)[ids[j]]]
+PhaseSqM(ids, M) == [j \in 1..3 |-> ConstraintCurrentsM(ids, M)[ids[j]]]
+PhaseSq(ids) == PhaseSqM(ids, CurrentMatrix)
 \* Magnitudes when all three rows are collinear (exact): over Q*CoefDen
 AllCollinear(ids) == \A j \in 1..3 : Collinear(NetIdx(ids[j]))
 PhaseMag(ids, k) == [j \in 1..3 |-> ConLin(NetIdx(ids[j]), k)]
 \* (max - mean)/mean = (3 max - sum) / sum   as <<numerator, denominator>>; undefined if sum = 0
 NemaOf(m) == LET sm == m[1] + m[2] + m[3]  mx == MaxOf({m[1], m[2], m[3]}) IN <<3 * mx - sm, sm>>
 NemaFrac(ids, k) == CHOOSE f \in {NemaOf(m) : m \in {PhaseMag(ids, k)}} : TRUE
-Unbalance(ids) ==
-    [sq |-> PhaseSq(ids),
+UnbalanceM(ids, M) ==
+    [sq |-> PhaseSqM(ids, M),
      collinear |-> AllCollinear(ids),
      frac |-> IF AllCollinear(ids) THEN [k \in 1..t |-> NemaFrac(ids, k - 1)] ELSE <<>>]
+Unbalance(ids) == UnbalanceM(ids, CurrentMatrix)
 
 -----------------------------------------------------------------------------
 \* ---- datetimes_array -------------------------------------------------------------
@@ -185,11 +198,16 @@ DemandChargeN == DemandRate * MaxPeriodEnergy
 \* ============================ actions =========================================
 InitA == Init /\ pick = <<>>
 
-\* The caller decides which constraint ids to ask for, in which order.
-PickReq ==
-    /\ pc = "Done" /\ pick = <<>>
-    /\ \E r \in ReqUniverse(PickLen) : pick' = <<r>>
+\* The caller decides which constraint ids to ask for, in which order: it builds its request one id
+\* at a time (any repetition-free sequence of at most PickLen ids) and then calls the functions.
+ExtendPick ==
+    /\ pc = "Done" /\ Len(pick) < PickLen
+    /\ \E x \in SeqRange(ConNames) \ SeqRange(pick) : pick' = Append(pick, x)
     /\ UNCHANGED vars
+
+ClosePick ==
+    /\ pc = "Done" /\ Len(pick) >= MinPick /\ pc' = "Picked"
+    /\ UNCHANGED <<durable, sigma, ghost, hist, pick>>
 
 DoneRec == [a |-> "done", t |-> t, pilots |-> pilots, dE |-> dE, evE |-> evE, chg |-> chg,
             peakN |-> peakN, evHist |-> evHist, seen |-> seen, schedHist |-> schedHist,
@@ -200,6 +218,7 @@ Ascending(S) == IF S = {} THEN <<>> ELSE <<MinOf(S)>> \o Ascending(S \ {MinOf(S)
 ThrSeq == Ascending(ThrSet)
 
 AnaRec ==
+    LET M == CurrentMatrix IN
     [a |-> "analysis",
      \* the configuration the values refer to
      phase |-> Phase, conNames |-> ConNames, conCoef |-> ConCoef, coefDen |-> CoefDen, q |-> Q,
@@ -207,21 +226,21 @@ AnaRec ==
      \* the values
      aggCurN |-> AggregateCurrent,
      aggPowN |-> AggregatePower,
-     ccAll |-> ConstraintCurrents(ConNames),            \* constraint_ids = None
+     ccAll |-> ConstraintCurrentsM(ConNames, M),           \* constraint_ids = None
      bound |-> [c \in 1..NC |-> [k \in 1..t |-> LinBound(c, k - 1)]],
-     cc |-> [j \in 1..Len(Requests) |-> [req |-> Requests[j], ans |-> ConstraintCurrents(Requests[j])]],
-     pick |-> [req |-> pick[1], ans |-> ConstraintCurrents(pick[1])],
+     cc |-> [j \in 1..Len(Requests) |-> [req |-> Requests[j], ans |-> ConstraintCurrentsM(Requests[j], M)]],
+     pick |-> [req |-> pick, ans |-> ConstraintCurrentsM(pick, M)],
      delivered |-> TotalDelivered, requested |-> TotalRequested, nsess |-> Cardinality(seen),
      met |-> [j \in 1..Len(ThrSeq) |-> [thr |-> ThrSeq[j], n |-> Met(ThrSeq[j]),
                                          decisive |-> ThrDecisive(ThrSeq[j])]],
-     nema |-> [j \in 1..Len(NemaIds) |-> [ids |-> NemaIds[j], u |-> Unbalance(NemaIds[j])]],
+     nema |-> [j \in 1..Len(NemaIds) |-> [ids |-> NemaIds[j], u |-> UnbalanceM(NemaIds[j], M)]],
      dt |-> DatetimeOffsets,
      price |-> [k \in 1..t |-> Price[k]], costN |-> EnergyCostN,
      demandRate |-> DemandRate, demandN |-> DemandChargeN]
 
 \* run() has returned: evaluate every analysis function, hand behaviour + values to the harness.
 FinishA ==
-    /\ pc = "Done" /\ pick # <<>>
+    /\ pc = "Picked"
     /\ IF Rec THEN PrintT(<<"BHV", ToJson(hist \o <<DoneRec, AnaRec>>)>>) ELSE TRUE
     /\ pc' = "Emitted"
     /\ UNCHANGED <<durable, sigma, ghost, hist, pick>>
@@ -229,7 +248,7 @@ FinishA ==
 \* AcnSim's actions (all but Finish) leave pick alone.  One definition per action so that
 \* TLC's coverage report names them.
 AddSessionA == (\E v \in SessVals : AddSession(v)) /\ UNCHANGED pick
-StartA == (\E R \in RecompSets, mr \in MRSet : Start(R, mr)) /\ UNCHANGED pick
+StartA == (Len(sess) >= MinSess \/ ~ENABLED AddSessionA) /\ (\E R \in RecompSets, mr \in MRSet : Start(R, mr)) /\ UNCHANGED pick
 LoopA == Loop /\ UNCHANGED pick
 ProcA == Proc /\ UNCHANGED pick
 DecideA == Decide /\ UNCHANGED pick
@@ -245,7 +264,7 @@ NextA ==
     \/ LoopA \/ ProcA \/ DecideA
     \/ SchedReturnA \/ InterruptA
     \/ UpdateA \/ ApplyA
-    \/ PickReq
+    \/ ExtendPick \/ ClosePick
     \/ FinishA
     \/ TerminatedA
 
@@ -264,6 +283,9 @@ Completed == pc = "Done" /\ pick = <<>>
 \* state are evaluated between periods and at the end, which visits every value the arrays ever take.
 Settled == pc \in {"Loop", "Done"}
 
+\* the configuration is on the Q-lattice (precondition of RateQ, hence of every phasor value)
+Quantised == Settled => QuantisedAll
+
 \* total energy delivered = sum of the sessions' energies = integral of aggregate power;
 \* aggregate power is VL * energy per period (numerators), i.e. power = energy / time.
 A_Energy ==
@@ -275,7 +297,7 @@ A_Energy ==
 \* proportions are proportions
 Fits == \A i \in seen : sess[i].cap - sess[i].init <= sess[i].req
 A_Proportion ==
-    Settled =>
+    Completed =>
     /\ 0 <= TotalDelivered
     /\ Fits => TotalDelivered <= TotalRequested
     /\ \A th \in ThrSet : Met(th) \in 0..Cardinality(seen)
@@ -301,7 +323,7 @@ A_Phasor ==
            \* a collinear row of ones is the plain sum of its stations' rates ...
            /\ (Collinear(c) /\ UnitRow(c)) =>
                  ln * VL * T
-                   = CoefDen * Q * SumSet([s \in Stations |-> IF s \in Support(c) THEN RateN(s, k) ELSE 0], Stations)
+                   = CoefDen * Q * SumSt([s \in Stations |-> IF s \in Support(c) THEN RateN(s, k) ELSE 0])
 \* ... so three such rows that partition the stations add up to aggregate_current
 PartitionRows(ids) ==
     /\ \A j \in 1..3 : Collinear(NetIdx(ids[j])) /\ UnitRow(NetIdx(ids[j]))
@@ -315,24 +337,22 @@ A_PhaseSum ==
 
 \* "returned under the right names whatever order they were requested in": the answer for a request
 \* is a function on exactly the requested ids whose value at an id is that constraint's own current.
-SqTable == [c \in 1..NC |-> [k \in 1..t |-> ConSq(c, k - 1)]]
-RightAnswer(req, tab) ==
-    \A cc \in {ConstraintCurrents(req)} :
+RightAnswer(req, M) ==
+    \A cc \in {ConstraintCurrentsM(req, M)} :
         /\ DOMAIN cc = SeqRange(req)
-        /\ \A nm \in SeqRange(req) : cc[nm] = tab[NetIdx(nm)]
+        /\ \A nm \in SeqRange(req) : cc[nm] = [k \in 1..t |-> ConSq(NetIdx(nm), k - 1)]
 \* (\A x \in {e} binds x to the VALUE of e: TLC then evaluates e once, not at every use)
 A_RightNames ==
-    pc = "Done" =>
-    \A tab \in {SqTable} :
-       /\ Completed =>
-              /\ \A req \in ReqUniverse(ThmLen) : RightAnswer(req, tab)
-              /\ \A j \in 1..Len(Requests) : RightAnswer(Requests[j], tab)
-       /\ pick # <<>> => RightAnswer(pick[1], tab)
+    /\ Completed =>
+          \A M \in {CurrentMatrix} :
+              /\ \A req \in ReqUniverse(ThmLen) : RightAnswer(req, M)
+              /\ \A j \in 1..Len(Requests) : RightAnswer(Requests[j], M)
+    /\ pc = "Picked" => RightAnswer(pick, CurrentMatrix)
 \* The index bookkeeping does not depend on the state: decided once, for every subset in every order.
 SelectionRight ==
     \A req \in ReqUniverse(NC) :
         \A idx \in {SelIdx(req)} : \A names \in {NamesList(idx)} :
-           /\ SeqRange(names) = SeqRange(req)
+           /\ SeqRange(names) = SeqRange(req) /\ Len(names) = Len(req)
            /\ \A j \in 1..Len(idx) : names[j] = ConNames[idx[j]]
            /\ \A a, b \in 1..Len(idx) : a < b => idx[a] < idx[b]
 
@@ -362,6 +382,6 @@ A_Cost ==
        /\ 0 <= DemandChargeN
        /\ DemandChargeN * Cardinality(Periods) >= DemandRate * TotalDelivered   \* max >= mean
 
-PickOnlyAtEnd == pick # <<>> => pc \in {"Done", "Emitted"}
-PickChangesNothing == [][PickReq => UNCHANGED vars]_varsA
+PickOnlyAtEnd == pick # <<>> => pc \in {"Done", "Picked", "Emitted"}
+PickChangesNothing == [][ExtendPick => UNCHANGED vars]_varsA
 =============================================================================
